@@ -1150,7 +1150,8 @@ class Ops:
         if isinstance(obj, ObjV):
             in_init = any(f.name == "__init__" for f in self.interp.call_stack)
             if not in_init:
-                self.ev("self_write", st, attr=attr, cls=obj.cls.qualname, value_syms=sorted(self.symbols_in(v)), value_atoms=sorted(self.atoms_in(v)))
+                self.ev("self_write", st, attr=attr, cls=obj.cls.qualname, value_syms=sorted(self.symbols_in(v)), value_atoms=sorted(self.atoms_in(v)),
+                        fresh=getattr(obj, "born_trace", None) is self.interp.trace)
             if getattr(obj, "summary", False):
                 # a store on the summary of several instances is a weak update
                 self.ev("lost_mutation", st, attr=attr)
